@@ -165,6 +165,20 @@ class Program(object):
             self.modules[modname] = m
         for m in self.modules.values():
             self._index_module(m)
+        # field names assigned somewhere outside a constructor: state that can change
+        # between two reads (the evaluator treats reads of them inside loops as unknown)
+        self.mutable_fields = set()
+        for m in self.modules.values():
+            for fn in ast.walk(m.tree):
+                if not isinstance(fn, ast.FunctionDef) or fn.name == '__init__':
+                    continue
+                for n in ast.walk(fn):
+                    tg = n.targets if isinstance(n, ast.Assign) else (
+                        [n.target] if isinstance(n, (ast.AugAssign, ast.AnnAssign)) else [])
+                    for t_ in tg:
+                        for x in ast.walk(t_):
+                            if isinstance(x, ast.Attribute) and isinstance(x.ctx, ast.Store):
+                                self.mutable_fields.add(x.attr)
         for cmd, script in ENTRY_SCRIPTS.items():
             sp = os.path.join(self.repo, script)
             if not os.path.isfile(sp):
